@@ -1,3 +1,142 @@
-/-! # C03 — property theorems (stub: not built yet) -/
+import PymtlVerif.Proofs.SV
+import PymtlVerif.Proofs.SVStmt
+import PymtlVerif.Proofs.SVLoop
+import PymtlVerif.Proofs.SVMod
+/-!
+# C03 — translated SystemVerilog behaves exactly like the PyMTL simulation
+
+Models: `Model/SV.lean` (two-state IEEE 1800-2017 semantics of the emitted subset, both readings `cb` of
+the size cast), `Model/SVMod.lean` (modules, elaboration, single-driver check, simulation loop),
+`Model/VTr.lean` (typed RTLIR `RExpr`/`RStmt`, PyMTL semantics `evalPy`/`execPy`, translator `tr`/`trStmt`).
+Proofs: `Proofs/SV.lean`, `Proofs/SVStmt.lean`, `Proofs/SVLoop.lean`, `Proofs/SVMod.lean`.
+
+`WT` / `WTref` (`SVProofs.WTm`) is the invariant the RTLIR type checker establishes (operand widths equal for
+the max-width operators, literals sized to the context, indices typed, right-hand side as wide as the target);
+it is a hypothesis here (C10 relates the type checker to it).  `C` lists the `localparam` variables with
+their values, `HoldsC σ C` says the store holds them.
+
+Coverage of `expr_correct` (all 22 `RExpr` constructors occur in `WTm`): numbers, BitsN(const), BitsN(e) (equal
+width; narrower context-free operand for Verilog; zero-extension form for Yosys), signals, constants and closure
+constants (localparam for Verilog, literal for Yosys), loop variables, temporaries (explicit and implicit),
+struct members (Verilog), elements of lists / packed arrays / bits with dynamic indices, constant slices,
+`+:` part selects, concat, zext, sext (all templates of the repaired `visit_SignExt`), trunc, reduce_and/or/xor,
+`~`, `+ - * % & | ^ << >>`, the six comparisons, if-expressions.
+NOT covered by the theorem (covered by the correspondence only): Yosys member access by flattened name;
+BitsN(e) of a wider operand or of a narrower context-dependent operand; sext whose operand is a struct- or
+array-typed signal; multiple assignment targets; descending loops and the loops of the Yosys backend.
+-/
 namespace PV.C03
+open PV.SV PV.VTr PV.SVProofs PV.Sched
+
+/-- **Expressions.** For every well-typed RTLIR expression whose PyMTL evaluation yields `v`, the translated
+    expression evaluated under the IEEE 1800 context-width rules — in a context of the node's own width — has the
+    same value, its self-determined width is the node's width, and the value fits; for both backends and both
+    readings of the size cast. -/
+theorem expr_correct (be : Backend) (cb : Bool) (Γ : Env) (C : List (String × Nat)) (σ : Store)
+    (hC : HoldsC σ C) {e : RExpr} (hwt : WT be Γ C e) {v : Nat} (hv : evalPy be Γ σ e = some v) :
+    eval cb Γ σ e.width (tr be e) = v ∧ selfWidth Γ (tr be e) = e.width ∧ v < 2 ^ e.width :=
+  SVProofs.expr_correct be cb Γ C σ hC hwt hv
+
+/-- **Signal references** (assignment targets, select chains): the storage PyMTL addresses is the storage the
+    translated select chain addresses, in range, with the same type. -/
+theorem ref_correct (be : Backend) (cb : Bool) (Γ : Env) (C : List (String × Nat)) (σ : Store)
+    (hC : HoldsC σ C) {e : RExpr} (hwt : WTref be Γ C e) {l : Loc} (hr : refPy be Γ σ e = some l) :
+    loc cb Γ σ (tr be e) = some l ∧ l.ok = true ∧ typeOf Γ (tr be e) = some ⟨l.ty, l.dims⟩ :=
+  SVProofs.ref_correct be cb Γ C σ hC hwt hr
+
+/-- the value an assignment stores: right-hand side evaluated at `max (lhs width) (self width)` and truncated -/
+theorem rhs_correct (be : Backend) (cb : Bool) (Γ : Env) (C : List (String × Nat)) (σ : Store)
+    (hC : HoldsC σ C) {e : RExpr} (hwt : WT be Γ C e) {v : Nat} (hv : evalPy be Γ σ e = some v) :
+    evalRhs cb Γ σ e.width (tr be e) = v :=
+  SVProofs.evalRhs_correct be cb Γ C σ hC hwt hv
+
+/-- **Statements** (assignment `@=` → blocking: the store is updated at once; `<<=` → non-blocking: appended to
+    the pending updates; if/else; sequences): executing the translated statement yields exactly the PyMTL
+    result — same store, same pending updates. -/
+theorem stmt_correct (be : Backend) (cb : Bool) (Γ : Env) (C : List (String × Nat)) {s : RStmt}
+    (hwt : WTs be Γ C s) {xs xs' : XS} (h : execPy be Γ s xs = some xs') (hC : HoldsC xs.σ C) :
+    exec cb Γ (trStmt be s) xs = xs' ∧ HoldsC xs'.σ C :=
+  SVProofs.stmt_correct be cb Γ C hwt h hC
+
+/-- **Statements with constant `for` loops** (Verilog backend, ascending ranges, nested and sequential loops):
+    simulation up to the cell of an out-of-scope loop variable (`AgreeX`: equal on every declared variable, equal
+    pending updates, no loop runs out of fuel). -/
+theorem stmt_sim (be : Backend) (cb : Bool) (C : List (String × Nat)) {Γ : Env} {s : RStmt}
+    (hwt : WTsL be C Γ s) {p p' q : XS} (h : execPy be Γ s p = some p') (hC : HoldsC p.σ C)
+    (ha : AgreeX Γ p q) : AgreeX Γ p' (exec cb Γ (trStmt be s) q) ∧ HoldsC p'.σ C :=
+  SVProofs.stmt_sim be cb C hwt h hC ha
+
+/-- the emitted `for ( int unsigned x = start; x < stop; x += step )` enumerates `range(start, stop, step)` -/
+theorem for_unrolls (cb : Bool) (Γ : Env) (blk x : String) (start stop step sw ew pw : Nat) (body : RStmt)
+    (n : Nat) (s : XS)
+    (hstart : start < 2 ^ sw) (hstop : stop < 2 ^ ew) (hstep : step < 2 ^ pw)
+    (hs32 : start < 2 ^ 32) (hbound : stop + step < 2 ^ 32)
+    (hpres : ∀ t, (exec cb (Γ.extend x intDecl) (trStmt .verilog body) t).σ.get (x, 0) = t.σ.get (x, 0))
+    (hn : stop ≤ start + n * step)
+    (hlen : (pyRange start stop step false n).length < loopFuel) :
+    exec cb Γ (trStmt .verilog (.for_ blk x start stop step false sw ew pw body)) s =
+      (pyRange start stop step false n).foldl
+        (svIter cb (Γ.extend x intDecl) x (trStmt .verilog body) step)
+        { s with σ := s.σ.set (x, 0) start } :=
+  SVProofs.for_sv cb Γ blk x start stop step sw ew pw body n s hstart hstop hstep hs32 hbound hpres hn hlen
+
+/-- non-blocking assignments: the last one to a location wins at the commit -/
+theorem nonblocking_last_wins (σ : Store) (nba : NBA) (l : Loc) (v : Nat) (hok : l.ok = true) (hd : l.dims = []) :
+    readLoc (commit σ (nba ++ [(l, v)])) l = v % 2 ^ l.ty.width :=
+  SVProofs.commit_last σ nba l v hok hd
+
+/-- the pending updates are applied in program order -/
+theorem commit_in_order (σ : Store) (nba : NBA) (l : Loc) (v : Nat) :
+    commit σ (nba ++ [(l, v)]) = writeLoc (commit σ nba) l v :=
+  SVProofs.commit_append σ nba l v
+
+/-- **Single driver**: when the checker accepts the write footprints of the processes, every bit of every
+    variable is written by at most one process. -/
+theorem singleDriver_sound (ws : List (List WR)) (h : singleDriver ws = true) (x : String) (e b : Nat) :
+    (drivers ws x e b).length ≤ 1 :=
+  SV.singleDriver_sound ws h x e b
+
+/-- … and when it rejects (non-empty footprints), some bit really has two drivers -/
+theorem singleDriver_complete (ws : List (List WR)) (hne : ∀ w ∈ ws, ∀ r ∈ w, r.NonEmpty)
+    (h : singleDriver ws = false) : ∃ x e b, 2 ≤ (drivers ws x e b).length :=
+  SV.singleDriver_complete ws hne h
+
+section design
+variable {Var Val : Type} {vw : XS → St Var Val} {castB : Bool} {Γ : Env} {ps : List Proc} {bs : List (Blk Var Val)}
+
+/-- **Design level** (instantiating the scheduling theory of C01): if the combinational processes are represented
+    by well-formed blocks (frame / dependency, hypothesis `Blk.Wf`) that are single-writer and listed in a
+    topological order, then any state fixed by every process and agreeing with the start on the undriven
+    variables is the state one sweep produces: the value of the design is a unique fixed point. -/
+theorem design_fixpoint_unique (hrep : Represents vw castB Γ ps bs) (hwf : ∀ b ∈ bs, b.Wf)
+    (hsw : SingleWriter bs) (htopo : Topo bs) (s t : XS)
+    (hin : ∀ k, (∀ b ∈ bs, ¬ b.W k) → vw t k = vw s k)
+    (ht : ∀ p ∈ ps, vw (exec castB Γ p.body t) = vw t) :
+    vw t = vw (runProcs castB Γ ps s) :=
+  SV.design_fixpoint_unique hrep hwf hsw htopo s t hin ht
+
+/-- any other topological order of the same processes settles to the same state -/
+theorem design_order_independent (hrep : Represents vw castB Γ ps bs) (hwf : ∀ b ∈ bs, b.Wf)
+    (hsw : SingleWriter bs) (htopo : Topo bs)
+    {ps' : List Proc} {bs' : List (Blk Var Val)} (hrep' : Represents vw castB Γ ps' bs')
+    (hperm : bs.Perm bs') (htopo' : Topo bs') (s : XS) :
+    vw (runProcs castB Γ ps' s) = vw (runProcs castB Γ ps s) :=
+  SV.design_order_independent hrep hwf hsw htopo hrep' hperm htopo' s
+
+/-- whatever the sweep loop of the simulator returns is that fixed point -/
+theorem settle_is_fixpoint (hrep : Represents vw castB Γ ps bs) (hwf : ∀ b ∈ bs, b.Wf)
+    (hsw : SingleWriter bs) (htopo : Topo bs) (n : Nat) (s r : XS)
+    (h : settleN castB Γ ps n s = some r) : vw r = vw (runProcs castB Γ ps s) :=
+  SV.settleN_view hrep hwf hsw htopo n s r h
+end design
+
+/-! ### non-vacuity -/
+
+/-- `sext(16, a[2:6]) + zext(16, m[a[0:2]])` is well typed, for both backends -/
+example (be : Backend) (Γ : Env) (h1 : Γ "a" = some ⟨.vec 8, []⟩) (h2 : Γ "m" = some ⟨.vec 8, [4]⟩) :
+    WT be Γ [] SVProofs.exE := SVProofs.exE_wt be Γ h1 h2
+
+/-- a loop statement in the fragment of `stmt_sim` -/
+example : WTsL .verilog [] SVProofs.exΓ SVProofs.exS := SVProofs.exS_wt
+
 end PV.C03
